@@ -759,8 +759,13 @@ pub fn slow_network_scenario(r: &mut Report, seed: u64) {
         // an acknowledgement counts if, by that timeline, its store request was never older than the timeout in
         // force until the acknowledgement was received)
         let mut task = Task::new(w.now(), async move { rx.recv_async().await });
-        let (_, line) = super::net::run_until_sampling_timeout(&w, &x, 300 * SEC, |w| task.poll(w.now()));
+        let (_, mut line) = super::net::run_until_sampling_timeout(&w, &x, 300 * SEC, |w| task.poll(w.now()));
         let res = task.result.take();
+        // (the put may have returned before the last acknowledgement arrives: the timeline has to cover that moment)
+        let last_answer = log.lock().unwrap_or_else(|e| e.into_inner())[mark..].iter().filter_map(|e| e.answered).max();
+        if let Some(t_a) = last_answer {
+            super::net::extend_sampling_until(&w, &x, t_a, &mut line);
+        }
         let acked = *acks_sent.borrow() - before;
         let stores: Vec<super::net::Exchange> = log.lock().unwrap_or_else(|e| e.into_inner())[mark..].iter().filter(|e| matches!(e.name.as_str(), "put" | "announce_peer" | "announce_signed_peer")).cloned().collect();
         let in_time: Vec<&super::net::Exchange> = stores.iter().filter(|e| e.answered.map(|t_a| super::net::alive_until_answered(&line, e.sent, t_a)).unwrap_or(false)).collect();
